@@ -404,6 +404,10 @@ impl Renderable for TableRow {
             .trace_with(|| self.trace().into())?;
         let array = range.evaluate()?;
         let cols = evaluate_attr(&self.cols, runtime)?;
+        if cols == Some(0) {
+            return Err(unexpected_value_error("positive number of columns", Some("0")))
+                .trace_with(|| self.trace().into());
+        }
         let limit = evaluate_attr(&self.limit, runtime)?;
         let offset = evaluate_attr(&self.offset, runtime)?.unwrap_or(0);
         let array = iter_array(array, limit, offset, false);
